@@ -23,7 +23,9 @@
    expression, a removed length / nil check (the guard becomes "none") all break it.
    [hashes_match] pins the normalised source of every function that a ByTheorem / Harmless justification
    depends on, of the scanned go-securesystemslib functions, and of the anchor functions whose bodies carry
-   the guards the theorems model (getSignerVerifierFromKey, validateKeyVal, VerifyLinkSignatureThesholds). *)
+   the guards the theorems model (getSignerVerifierFromKey, validateKeyVal, VerifyLinkSignatureThesholds; and the PEM readers
+   decodeAndParse / parseKey of the guard next to decodeAndParsePEM / parsePEMKey of the constructors, which must look at
+   the same block of a PEM text). *)
 From IT Require Import model.Base.
 From Coq Require Import String.
 Local Open Scope string_scope.
@@ -231,6 +233,12 @@ Definition pinned_sites : list pinned := [
 ].
 
 Definition pinned_hashes : list (str * str * str) := [
+  (* the PEM readers of the guard (in_toto) and of the protected constructors (go-securesystemslib): proofs/NoPanicKeys.v
+     assumes that both parse the FIRST block of a text with the same parsers in the same order *)
+  ((bs "keylib.go"), (bs "decodeAndParse"), (bs "219cae43a4c0707f"));
+  ((bs "keylib.go"), (bs "parseKey"), (bs "fe340f11d52d524d"));
+  ((bs "sslib/utils.go"), (bs "decodeAndParsePEM"), (bs "cd8f76c2045e2646"));
+  ((bs "sslib/utils.go"), (bs "parsePEMKey"), (bs "68c002d1debc96d5"));
   ((bs "envelope.go"), (bs "getSignerVerifierFromKey"), (bs "182ff8242b371c31"));
   ((bs "keylib.go"), (bs "Key.generateKeyID"), (bs "713ce944f223b92e"));
   ((bs "match.go"), (bs "getEsc"), (bs "fdf57b3090b93fdc"));
